@@ -473,7 +473,9 @@ def run_property(mod, tier, seed):
     if harness_errors:
         for e in harness_errors[:5]:
             print("HARNESS-ERROR:", e, file=sys.stderr)
-        return 2
+        if not nviol:
+            return 2
+        # a violation was found and reported; generator-health floors are usually missed *because* the tree is broken
     return 1 if nviol else 0
 
 
